@@ -129,6 +129,31 @@ def race_exec(rng):
     return ({"name": "race", "sched": rng.randint(1, 10 ** 6)}, cmds)
 
 
+def planned_execs(limit, seed):
+    """schedules generated by TLC from spec/design/MCTempSched.tla (one per transition of the state graph of
+    three threads acquiring a stack concurrently with 0, 1 or 2 released stacks waiting): the driver follows
+    the plan at its hook points"""
+    from . import models
+    out = []
+    for free in (0, 1, 2):
+        beh, _ = models.behaviours("MCTempSched", "MCTempSched_f%d.cfg" % free, limit, seed)
+        for b in beh:
+            cmds = []
+            holders = list(range(4, 4 + free))        # threads 4, 5 create the stacks that wait in the list
+            for t in holders:
+                cmds.append("s %d init" % t)
+            for t in holders:
+                cmds.append("s %d uninit" % t)
+            cmds.append("par 1 get | 2 get | 3 get")
+            for t in (1, 2, 3):
+                cmds += ["s %d push" % t, "s %d alloc 40 8" % t]
+            for t in (1, 2, 3):
+                cmds += ["s %d check" % t, "s %d pop" % t]
+            # model threads 2..4 are the driver's threads 1..3
+            out.append(({"name": "tlc-sched", "free": free, "plan": ".".join(str(t - 1) for t in b), "sched": 7}, cmds))
+    return out
+
+
 def jobs_c14(prop, tier, seed):
     rng = random.Random(seed * 15485863 + 14)
     s = 1 if tier == "quick" else 30
@@ -139,6 +164,7 @@ def jobs_c14(prop, tier, seed):
         execs += [api_exec(rng, rng.choice([2, 3, 4])) for _ in range(30 * s)]
         execs += [par_exec(rng, rng.choice([2, 3, 4])) for _ in range(40 * s)]
         execs += [race_exec(rng) for _ in range(60 * s)]
+        execs += planned_execs(40 if tier == "quick" else 2000, seed)
         J.append(Job(cfg, "temp", "TempTrace", execs, "temp", also=("TempListTrace",)))
     return J
 
